@@ -44,7 +44,9 @@ type msgKey struct {
 	from, to sharing.ID // to == 0: broadcast (or message to the aggregator)
 }
 
-func (k msgKey) String() string { return fmt.Sprintf("r%df%dt%d", k.round, uint64(k.from), uint64(k.to)) }
+func (k msgKey) String() string {
+	return fmt.Sprintf("r%df%dt%d", k.round, uint64(k.from), uint64(k.to))
+}
 
 type recorded struct {
 	keys  []msgKey
@@ -96,8 +98,8 @@ type mutHook struct {
 	cached   bool
 	original []byte
 	altered  []byte
-	applied bool   // the operator changed the bytes
-	err     string // the operator could not be applied
+	applied  bool   // the operator changed the bytes
+	err      string // the operator could not be applied
 }
 
 func (h *mutHook) OnMessage(m *drive.Msg, _ sharing.ID) []byte {
@@ -305,6 +307,7 @@ type runReport struct {
 	canon     string
 	firstRej  int
 	modelWant string
+	details   []string
 }
 
 const runTimeout = 120 * time.Second
@@ -381,6 +384,11 @@ func evaluate(a *adapter, seed int64, m *mutation, pool *tamper.Pool, want strin
 		vt = append(vt, fmt.Sprintf("%d:%s@%d", uint64(id), v.String(), v.Round))
 	}
 	rep.canon = m.text() + " => " + strings.Join(vt, " ")
+	for _, id := range honest {
+		if v, ok := o.tr.Verdicts[id]; ok && v.Class != "ok" {
+			rep.details = append(rep.details, fmt.Sprintf("%d: %s", uint64(id), v.Detail))
+		}
+	}
 	// (a) panics
 	for _, id := range honest {
 		if v := o.tr.Verdicts[id]; v.Class == "panic" {
@@ -442,16 +450,29 @@ func evaluate(a *adapter, seed int64, m *mutation, pool *tamper.Pool, want strin
 		want = "noop"
 		rep.modelWant = "noop"
 	}
-	switch want {
-	case "bound":
+	panicked := false
+	for _, f := range rep.findings {
+		if f.clause == "panic" || f.clause == "timeout" {
+			panicked = true
+		}
+	}
+	switch {
+	case panicked:
+		// already reported under clause (a)
+	case want == "bound":
 		if m.key.to != 0 && !rep.rcptRej {
 			add("bound-leaf-undetected", fmt.Sprintf("the recipient %d of the altered unicast did not reject (%s); results returned by %v", uint64(m.key.to), strings.Join(vt, " "), returned))
 		} else if !rep.detected {
 			add("bound-leaf-undetected", fmt.Sprintf("no honest party and no aggregator rejected (%s); results returned by %v", strings.Join(vt, " "), returned))
 		}
-	case "late":
-		if !rep.detected {
+	case want == "late":
+		switch {
+		case !rep.detected:
 			add("bound-leaf-undetected", fmt.Sprintf("no honest party and no aggregator rejected (%s); results returned by %v", strings.Join(vt, " "), returned))
+		case m.key.to != 0 && !rep.rcptRej && len(bad) == 0:
+			// the property text wants the recipient of a unicast to reject; for these leaves the
+			// protocol only notices at aggregation (model class Late, theorem C04_dkls_late)
+			add("unicast-detected-only-by-aggregator", fmt.Sprintf("the recipient %d of the altered unicast accepted it; the deviation was only noticed downstream (%s); no result returned by an honest party or the aggregator: %v", uint64(m.key.to), strings.Join(vt, " "), len(returned) == 0))
 		}
 	}
 	switch {
@@ -477,7 +498,11 @@ func evaluate(a *adapter, seed int64, m *mutation, pool *tamper.Pool, want strin
 // the framing itself); the model's Validate predicate covers all of them.
 func structuralOp(m *mutation) bool {
 	switch m.op.Kind {
-	case tamper.OpTruncate, tamper.OpExtend, tamper.OpMalformed, tamper.OpDrop:
+	case tamper.OpTruncate, tamper.OpExtend:
+		// a byte string of another length: the library's decoder zero-pads / cuts it when the
+		// target is a fixed-size array, i.e. it is a VALUE change of that leaf (or none at all)
+		return m.kind != tamper.KBytes
+	case tamper.OpMalformed, tamper.OpDrop:
 		return true
 	}
 	switch m.kind {
@@ -653,8 +678,8 @@ func prepare(a *adapter, seed int64, res *vh.Result) *protoState {
 
 // quotas: number of mutated runs per protocol and tier.
 var quota = map[string]map[string]int{
-	"quick": {"session": 90, "gennaro": 120, "hjky": 60, "redistribute": 110, "lindell22": 140, "boldyreva": 40, "boldyreva-3": 12, "dkls23": 7,
-		"canetti": 40, "dkls23-softspoken": 3, "lindell17": 6, "cggmp21": 2},
+	"quick": {"session": 90, "gennaro": 100, "hjky": 60, "redistribute": 110, "lindell22": 140, "boldyreva": 40, "boldyreva-3": 6, "dkls23": 6,
+		"canetti": 40, "dkls23-softspoken": 3, "lindell17": 4, "cggmp21": 2},
 	"thorough": {"session": 3000, "gennaro": 1500, "hjky": 800, "redistribute": 1500, "lindell22": 1500, "boldyreva": 200, "boldyreva-3": 100, "dkls23": 90,
 		"canetti": 1000, "dkls23-softspoken": 40, "lindell17": 60, "cggmp21": 40},
 }
@@ -730,7 +755,7 @@ func main() {
 			if f.clause == "bound-leaf-undetected" {
 				what = "C04.bound_field_detected (model class " + rep.modelWant + " for field " + dash(m.field) + ") vs implementation"
 			}
-			res.Mismatch(vh.Mismatch{ID: fmt.Sprintf("%s-%d", m.proto, idx), Kind: "prop", Key: key, Detail: f.detail + " || " + rep.canon, Case: m.text(), PropFail: true, What: what})
+			res.Mismatch(vh.Mismatch{ID: fmt.Sprintf("%s-%d", m.proto, idx), Kind: "prop", Key: key, Detail: f.detail + " || " + rep.canon + " || " + strings.Join(rep.details, " | "), Case: m.text(), PropFail: true, What: what})
 		}
 	}
 
@@ -770,7 +795,7 @@ func main() {
 			classes, _ := modelClasses(a.Driver, []*mutation{m})
 			rep := evaluate(st.a, a.Seed, m, st.pool, wantOf(classes, st.a, m))
 			report(st, m, rep, 0)
-			res.Note("replay: %s", rep.canon)
+			res.Note("replay: %s || %s", rep.canon, strings.Join(rep.details, " | "))
 		}
 		res.Write(a.Out)
 		return
@@ -795,7 +820,15 @@ func main() {
 		strata := map[string][]*mutation{}
 		var order []string
 		for _, m := range all {
-			s := fmt.Sprintf("%d|%d/%s/%s/%s/%s", opRank(m), m.key.round, bcastText(m.key), stratumPath(m.path), m.kind, m.op.Kind)
+			rank := fmt.Sprintf("%d", opRank(m))
+			if opRank(m) == 0 {
+				for i, f := range ad.first {
+					if f == m.field {
+						rank = fmt.Sprintf("!%02d", i)
+					}
+				}
+			}
+			s := fmt.Sprintf("%s|%d/%s/%s/%s/%s", rank, m.key.round, bcastText(m.key), stratumPath(m.path), m.kind, m.op.Kind)
 			if m.op.Kind == tamper.OpReplay {
 				s += "/" + strings.SplitN(m.op.Src, ":", 2)[0]
 			}
